@@ -6,6 +6,12 @@ From Coq Require Import NArith ZArith List Bool Lia ZifyBool.
 Import ListNotations.
 From CA Require Import Model.Lexer Model.Parser Model.Literal Model.Matcher Model.AsmAst Model.AsmParser.
 Open Scope N_scope.
+Local Arguments N.add : simpl never.
+Local Arguments N.sub : simpl never.
+Local Arguments N.mul : simpl never.
+Local Arguments N.eqb : simpl never.
+Local Arguments N.leb : simpl never.
+Local Arguments N.ltb : simpl never.
 
 (* ================================================================================================ *)
 (* A. bytes, prefixes, and the token-length lemma                                                    *)
@@ -68,13 +74,13 @@ Proof.
     destruct (starts_with [59; 42] (c :: r)) eqn:E1.
     + apply starts_with_prefix in E1. destruct E1 as (s & E1). cbn [app] in E1. injection E1 as -> ->.
       cbn [length] in Hk. destruct (IH s (S nesting) ltac:(lia)) as (p & s' & -> & ->).
-      exists (59 :: 42 :: p), s'. split; [reflexivity|]. cbn [bytes_len]. reflexivity.
+      exists (59 :: 42 :: p), s'. split; [reflexivity|]. cbn [bytes_len]. change (utf8_len 59) with 1. change (utf8_len 42) with 1. lia.
     + destruct (starts_with [42; 59] (c :: r)) eqn:E2.
       * apply starts_with_prefix in E2. destruct E2 as (s & E2). cbn [app] in E2. injection E2 as -> ->.
         destruct nesting as [|n].
         -- exists [42; 59], s. split; reflexivity.
         -- cbn [length] in Hk. destruct (IH s n ltac:(lia)) as (p & s' & -> & ->).
-           exists (42 :: 59 :: p), s'. split; [reflexivity|]. cbn [bytes_len]. reflexivity.
+           exists (42 :: 59 :: p), s'. split; [reflexivity|]. cbn [bytes_len]. change (utf8_len 59) with 1. change (utf8_len 42) with 1. lia.
       * cbn [length] in Hk. destruct (IH r nesting ltac:(lia)) as (p & s' & -> & ->).
         exists (c :: p), s'. split; reflexivity.
 Qed.
@@ -89,25 +95,33 @@ Proof.
   apply span_while_prefix in E. destruct E as (pre & -> & E). eapply is_tok_intro; [reflexivity|exact E|discriminate].
 Qed.
 
+Ltac lit_neq c :=
+  destruct c as [|c]; [reflexivity|]; repeat (destruct c as [c|c|]; try reflexivity); congruence.
+
+Definition line_comment (r : text) : option (tkind * N) :=
+  let '(n0, _) := span_while (fun c => negb (c =? 10)) r in Some (TComment, 1 + n0).
+Lemma cc_none c r : c <> 59 -> check_comment (c :: r) = None.
+Proof. intros H. unfold check_comment. lit_neq c. Qed.
+Lemma cc_block r : check_comment (59 :: 42 :: r) = Some (TComment, 2 + block_comment r 0).
+Proof. reflexivity. Qed.
+Lemma cc_line1 : check_comment [59] = line_comment [].
+Proof. reflexivity. Qed.
+Lemma cc_line d r : d <> 42 -> check_comment (59 :: d :: r) = line_comment (d :: r).
+Proof. intros H. unfold check_comment, line_comment. lit_neq d. Qed.
+
 Lemma check_comment_tok t k n : check_comment t = Some (k, n) -> is_tok t n.
 Proof.
-  unfold check_comment. destruct t as [|c r]; [discriminate|].
-  destruct c as [|c]; [discriminate|].
-  destruct (N.eq_dec (N.pos c) 59) as [Ec|Ec].
-  2:{ intros H. exfalso. revert H.
-      repeat (destruct c as [c|c|]; try discriminate); intros; congruence. }
-  rewrite Ec. clear Ec c.
-  assert (Hline : forall r0, (let '(n0, _) := span_while (fun c => negb (c =? 10)) r0 in Some (TComment, 1 + n0)) = Some (k, n) -> is_tok (59 :: r0) n).
-  { intros r0. destruct (span_while (fun c => negb (c =? 10)) r0) as [m rest] eqn:E. intros H. injection H as _ <-.
+  destruct t as [|c r]; [discriminate|].
+  destruct (N.eq_dec c 59) as [->|Ec]; [|rewrite cc_none by exact Ec; discriminate].
+  assert (Hline : forall r0, line_comment r0 = Some (k, n) -> is_tok (59 :: r0) n).
+  { intros r0. unfold line_comment. destruct (span_while (fun c => negb (c =? 10)) r0) as [m rest] eqn:E. intros H0. injection H0 as _ <-.
     apply span_while_prefix in E. destruct E as (pre & -> & ->).
-    eapply (is_tok_intro _ (59 :: pre) rest); [reflexivity| cbn [bytes_len]; reflexivity | lia]. }
-  destruct r as [|d r2]; [apply Hline|].
-  destruct (N.eq_dec d 42) as [->|Ed].
-  - intros H. injection H as _ <-.
-    destruct (block_comment_prefix (length r2) r2 0 (le_n _)) as (p & s & -> & ->).
-    eapply (is_tok_intro _ (59 :: 42 :: p) s); [reflexivity| cbn [bytes_len]; reflexivity | lia].
-  - intros H. apply Hline. destruct d as [|d]; [exact H|].
-    repeat (destruct d as [d|d|]; try exact H). congruence.
+    exists (59 :: pre), rest. split; [reflexivity|]. split; [cbn [bytes_len]; reflexivity | discriminate]. }
+  destruct r as [|d r2]; [rewrite cc_line1; apply Hline|].
+  destruct (N.eq_dec d 42) as [->|Ed]; [|rewrite cc_line by exact Ed; apply Hline].
+  rewrite cc_block. intros H. injection H as _ <-.
+  destruct (block_comment_prefix (length r2) r2 0 (le_n _)) as (p & s & -> & ->).
+  exists (59 :: 42 :: p), s. split; [reflexivity|]. split; [cbn [bytes_len]; change (utf8_len 59) with 1; change (utf8_len 42) with 1; lia | discriminate].
 Qed.
 
 Lemma check_number_tok t k n : check_number t = Some (k, n) -> is_tok t n.
@@ -125,12 +139,12 @@ Proof.
     + apply N.eqb_eq in E2. subst c. destruct (span_while is_hex_mid r) as [m rest] eqn:E.
       destruct m as [|m]; [discriminate|]. intros H. injection H as _ <-.
       apply span_while_prefix in E. destruct E as (pre & -> & E).
-      eapply (is_tok_intro _ (36 :: pre) rest); [reflexivity| cbn [bytes_len]; rewrite <- E; reflexivity | lia].
+      exists (36 :: pre), rest. split; [reflexivity|]. split; [cbn [bytes_len]; rewrite <- E; reflexivity | discriminate].
     + destruct (c =? 37) eqn:E3; [|discriminate].
       apply N.eqb_eq in E3. subst c. destruct (span_while is_bin_mid r) as [m rest] eqn:E.
       destruct m as [|m]; [discriminate|]. intros H. injection H as _ <-.
       apply span_while_prefix in E. destruct E as (pre & -> & E).
-      eapply (is_tok_intro _ (37 :: pre) rest); [reflexivity| cbn [bytes_len]; rewrite <- E; reflexivity | lia].
+      exists (37 :: pre), rest. split; [reflexivity|]. split; [cbn [bytes_len]; rewrite <- E; reflexivity | discriminate].
 Qed.
 
 Lemma check_identifier_tok t k n : check_identifier t = Some (k, n) -> is_tok t n.
@@ -138,7 +152,7 @@ Proof.
   unfold check_identifier. destruct t as [|c r]; [discriminate|].
   destruct (c =? 36) eqn:E2.
   - apply N.eqb_eq in E2. subst c. intros H. injection H as _ <-.
-    eapply (is_tok_intro _ [36] r); [reflexivity|reflexivity|discriminate].
+    exists [36], r. split; [reflexivity|]. split; [reflexivity | discriminate].
   - destruct (is_ident_start c) eqn:E1; [|discriminate].
     destruct (span_while is_ident_mid (c :: r)) as [m rest] eqn:E.
     assert (is_tok (c :: r) m) as Ht.
@@ -163,23 +177,32 @@ Qed.
 Lemma specials_nonempty : Forall (fun pk : text * tkind => fst pk <> []) specials.
 Proof. unfold specials. repeat constructor; discriminate. Qed.
 
+Definition string_body (r : text) : option (tkind * N) :=
+  let '(n, rest) := span_while (fun c => negb (c =? 34)) r in
+  match rest with d :: _ => if d =? 34 then Some (TString, 2 + n) else None | [] => None end.
+Lemma cs_none c r : c <> 34 -> check_string (c :: r) = None.
+Proof. intros H. unfold check_string. lit_neq c. Qed.
+Lemma cs_body r : check_string (34 :: r) = string_body r.
+Proof.
+  unfold check_string, string_body. destruct (span_while (fun c => negb (c =? 34)) r) as [m rest].
+  destruct rest as [|d rest]; [reflexivity|].
+  destruct (N.eqb_spec d 34) as [->|Hd]; [reflexivity|]. lit_neq d.
+Qed.
+
 Lemma check_string_tok t k n : check_string t = Some (k, n) -> is_tok t n.
 Proof.
-  unfold check_string. destruct t as [|c r]; [discriminate|].
-  destruct (N.eq_dec c 34) as [->|Ec].
-  2:{ intros H. exfalso. destruct c as [|c]; [discriminate|].
-      repeat (destruct c as [c|c|]; try discriminate). congruence. }
+  destruct t as [|c r]; [discriminate|].
+  destruct (N.eq_dec c 34) as [->|Ec]; [|rewrite cs_none by exact Ec; discriminate].
+  rewrite cs_body. unfold string_body.
   destruct (span_while (fun c => negb (c =? 34)) r) as [m rest] eqn:E.
   apply span_while_prefix in E. destruct E as (pre & -> & ->).
   destruct rest as [|d rest]; [discriminate|].
-  destruct (N.eq_dec d 34) as [->|Ed].
-  - intros H. injection H as _ <-.
-    eapply (is_tok_intro _ (34 :: pre ++ [34]) rest).
-    + cbn [app]. rewrite <- app_assoc. reflexivity.
-    + cbn [bytes_len]. rewrite blen_app. cbn [bytes_len]. change (utf8_len 34) with 1. lia.
-    + lia.
-  - intros H. exfalso. destruct d as [|d]; [discriminate|].
-    repeat (destruct d as [d|d|]; try discriminate). congruence.
+  destruct (N.eqb_spec d 34) as [->|Hd]; [|discriminate].
+  intros H. injection H as _ <-.
+  exists (34 :: pre ++ [34]), rest. split; [|split].
+  - cbn [app]. rewrite <- app_assoc. reflexivity.
+  - cbn [bytes_len]. rewrite blen_app. cbn [bytes_len]. change (utf8_len 34) with 1. lia.
+  - discriminate.
 Qed.
 
 (* the token-length lemma: on a non-empty text the decided token is a non-empty prefix *)
